@@ -98,9 +98,18 @@ func (d *Data) MergeLabels(v dvid.VersionID, op labels.MergeOp, info dvid.ModInf
 		}
 	}
 
-	// Get all the affected blocks in the merge.
+	// Get all the affected blocks in the merge.  The target's index is read, extended and written
+	// back under the index lock of its shard so concurrent mutations of the target are not lost.
 	var targetIdx, mergeIdx *labels.Index
-	if targetIdx, err = GetLabelIndex(d, v, op.Target, false); err != nil {
+	shard := op.Target % numIndexShards
+	indexMu[shard].Lock()
+	targetLocked := true
+	defer func() {
+		if targetLocked {
+			indexMu[shard].Unlock()
+		}
+	}()
+	if targetIdx, err = getCachedLabelIndex(d, v, op.Target); err != nil {
 		err = fmt.Errorf("error accessing index of merge target label %d: %v", op.Target, err)
 		return
 	}
@@ -149,9 +158,12 @@ func (d *Data) MergeLabels(v dvid.VersionID, op labels.MergeOp, info dvid.ModInf
 		return
 	}
 	dvid.Infof("putting targetIdx with user %s\n", targetIdx.LastModUser)
-	if err = PutLabelIndex(d, v, op.Target, targetIdx); err != nil {
+	targetIdx.Label = op.Target
+	if err = putCachedLabelIndex(d, v, targetIdx); err != nil {
 		return
 	}
+	indexMu[shard].Unlock() // released before the merged indices' own shard locks are taken
+	targetLocked = false
 	for merged := range delta.Merged {
 		DeleteLabelIndex(d, v, merged)
 	}
